@@ -491,6 +491,12 @@ func (ev *evalCtx) call(e *Expr) Term {
 		return Term{and(app(">=", app("allocT", a.S), ev.tr.get(ev.old, "$clock", "Int")), not(app("=", a.S, "nilref"))), "Bool", nil}
 	case "mkslice":
 		return Term{app("mk_slice", arg(0).S, arg(1).S, arg(2).S, arg(3).S), "Slice", nil}
+	case "eref_arr":
+		return Term{app("eref_arr", arg(0).S), "Ref", nil}
+	case "eref_idx":
+		return Term{app("eref_idx", arg(0).S), "Int", nil}
+	case "selem":
+		return Term{app("selem", arg(0).S, arg(1).S), "Ref", nil}
 	case "eref":
 		return Term{app("eref", arg(0).S, arg(1).S), "Ref", nil}
 	case "allocT":
@@ -557,6 +563,7 @@ func (ev *evalCtx) callSpecFun(fd *FunDecl, args []Term) Term {
 		n := *ev
 		n.env = map[string]Term{}
 		n.names = nil
+		n.bound = nil
 		for i, a := range args {
 			ps, gt, err := c.specSort(fd.Params[i].Sort)
 			if err != nil {
